@@ -582,6 +582,9 @@ func BuildFromAliasedTable(query *Query, as string, expr sqlparser.SimpleTableEx
 		}
 	case *sqlparser.DerivedTable:
 		{
+			// a derived table is known by its alias, as a table is: a join needs
+			// it to tell the columns of its two sides apart
+			query.ident = as
 			subquery, err := Prepare(query.data, expr.Select, query.options)
 			if err != nil {
 				return err
